@@ -453,8 +453,9 @@ def classify_roots(prov):
 
 def guarded_globals(mod, f):
     """Globals whose guard variable is acquired in f (thread-safe initialisation of a function-local / inline static), each with
-    its initialisation region: the blocks on a path from the __cxa_guard_acquire call to the matching __cxa_guard_release /
-    __cxa_guard_abort.  Only writes inside that region are the one-time initialisation; a write to the same global anywhere
+    its initialisation region: the acquire block and the blocks between its "guard acquired" successor and the matching
+    __cxa_guard_release / __cxa_guard_abort (paths that do not come back through the acquire block, so that an enclosing loop does
+    not turn the whole loop body into the region).  Only writes inside that region are the one-time initialisation; a write to the same global anywhere
     else in f is an ordinary write to shared mutable state."""
     acq, rel = {}, {}
     for lab in f.order:
@@ -490,12 +491,34 @@ def guarded_globals(mod, f):
                     todo.append(y)
         return seen
 
+    def forward(start, removed, stop):
+        seen, todo = set(), [s for s in start if s not in removed]
+        while todo:
+            x = todo.pop()
+            if x in seen:
+                continue
+            seen.add(x)
+            if x in stop:
+                continue       # the region ends with the release / abort block
+            for y in succ.get(x, []):
+                if y not in removed and y not in seen:
+                    todo.append(y)
+        return seen
+
     out = {}
     for g, labs in acq.items():
         if g not in rel:
             out[g] = set(f.order)      # release not visible in this function (initialisation in a callee): keep the whole function
-        else:
-            out[g] = closure(labs, succ) & closure(rel[g], pred)
+            continue
+        region = set(labs)
+        for a in labs:
+            for s in succ.get(a, []):
+                # the successor taken when the guard was acquired is the one that reaches the release without coming back
+                # through the acquire block; the other one ("already initialised") reaches it only around an enclosing loop
+                r = forward([s], {a}, rel[g])
+                if r & rel[g]:
+                    region |= r
+        out[g] = region & (closure(labs, succ) & closure(rel[g], pred))
     return out
 
 
